@@ -298,11 +298,11 @@ PeerOK(s) ==   \* (uses the state variable w for the error bound)
   /\ s.tag \in {"Cold", "Warm", "Hot", "Banned"}
   /\ s.viol \in BOOLEAN /\ s.cont \in BOOLEAN /\ s.errs \in 0..(w.cfg.maxErr + 1)
   /\ s.hs \in {"Propose", "Confirm", "Accepted", "Rejected", "Query"}
-  /\ s.ka \in {"Client", "Server"}
+  /\ s.ka \in {"Client", "Server", "Done"}
   /\ s.ps \in {"IdleEmpty", "IdleResponse", "Busy", "Done"}
   /\ s.bf \in {"Idle", "Busy", "StreamingNone", "StreamingSome", "Done"}
   /\ s.cs \in CsIdle \cup {"CanAwait", "MustReply", "Intersect", "Done"}
-  /\ s.tx \in {"Init", "Idle", "TxIdsBlocking", "TxIdsNonBlocking", "Txs"}
+  /\ s.tx \in {"Init", "Idle", "TxIdsBlocking", "TxIdsNonBlocking", "Txs", "Done"}
   /\ s.ln \in {"IdleNone", "IdleSome", "Busy", "Done"}
   /\ s.lf \in {"IdleNone", "IdleSome", "AwaitingBlock", "AwaitingBlockTxs", "Done"}
 
